@@ -1,2 +1,99 @@
-From TT Require Import Base.Prelude Base.ImscXml Model.ImscTime Model.TimeCode Model.ImscWrite.
-From TT Require Import Proofs.C05.Times Proofs.C05.Values.
+(* C05 — writing a document as IMSC and reading it back presents identically.
+   Only statements, `exact`, and Print Assumptions.  M = Model/ImscWrite.v (value printers of the IMSC writer, value parsers of the
+   IMSC reader), Model/ImscTime.v (the reader's time-expression parser, C04), Model/TimeCode.v (C12).  All statements are for
+   unbounded inputs unless a bound is written in the statement. *)
+From TT Require Import Base.Prelude Base.ImscXml Model.ImscTime Model.TimeCode Model.ImscWrite Gen.ImscTables.
+From TT Require Import Proofs.C04.TimeSyntax Proofs.C05.Times Proofs.C05.Values.
+From Coq Require Import QArith.
+Local Open Scope Z_scope.
+
+(* ---- times ------------------------------------------------------------------------------------------------------------------- *)
+(* clock time: a millisecond multiple below 100 h is written as hh:mm:ss.mmm and read back exactly, whatever the reader's rates *)
+Theorem C05_time_clock : forall t k fps tr fr,
+  (t == k # 1000)%Q -> 0 <= k < 360000000 -> 0 < tr -> (0 < fr)%Q ->
+  exists s, to_time_format SyClock fps t = Some s /\ exists q, parse_time_x (Some tr) (Some fr) s = TVal q /\ (q == t)%Q.
+Proof. exact time_clock. Qed.
+
+(* frames: t >= 0 is written as "Nf" with N = ceil(t * fps), and read back under the same frame rate as N / fps ... *)
+Theorem C05_time_frames : forall t fps tr, (0 <= t)%Q -> (0 < fps)%Q ->
+  exists s, to_time_format SyFrames (Some fps) t = Some s /\
+            exists q, parse_time_x tr (Some fps) s = TVal q /\ (q == inject_Z (frames_of t fps) / fps)%Q.
+Proof. exact time_frames. Qed.
+(* ... which is never earlier than t and later by less than one frame, ... *)
+Theorem C05_time_frames_error : forall t fps, (0 < fps)%Q ->
+  let q := (inject_Z (frames_of t fps) / fps)%Q in (t <= q)%Q /\ (q - t < 1 / fps)%Q.
+Proof. exact frames_error. Qed.
+(* ... exact on whole frames, and order-preserving *)
+Theorem C05_time_frames_exact : forall k fps, (0 < fps)%Q -> frames_of (inject_Z k / fps) fps = k.
+Proof. exact frames_exact. Qed.
+Theorem C05_time_frames_monotone : forall t1 t2 fps, (0 < fps)%Q -> (t1 <= t2)%Q -> frames_of t1 fps <= frames_of t2 fps.
+Proof. exact frames_monotone. Qed.
+
+(* ---- attribute values -------------------------------------------------------------------------------------------------------- *)
+(* the 16 enumeration-valued properties (tables regenerated from the source): every member is read back *)
+Theorem C05_attr_roundtrip_enum : forall p o s, print_style p (SEnum o) = WAttr s -> read_style p s = Some (SEnum o).
+Proof. exact enum_roundtrip. Qed.
+Theorem C05_attr_roundtrip_bool : forall b, exists s, print_style P_FillLineGap (SBool b) = WAttr s /\ read_style P_FillLineGap s = Some (SBool b).
+Proof. exact bool_roundtrip. Qed.
+(* colours: every RGBA8 colour *)
+Theorem C05_attr_roundtrip_color : forall r g b a, byte r -> byte g -> byte b -> byte a ->
+  read_style P_Color (print_color (r, g, b, a)) = Some (SColor (r, g, b, a)) /\
+  print_style P_Color (SColor (r, g, b, a)) = WAttr (print_color (r, g, b, a)).
+Proof. exact color_style_roundtrip. Qed.
+Theorem C05_attr_roundtrip_background_partial : forall r g b a, byte r -> byte g -> byte b -> byte a ->
+  color_eqb (r, g, b, a) transparent = false ->
+  print_style P_BackgroundColor (SColor (r, g, b, a)) = WAttr (print_color (r, g, b, a)) /\
+  read_style P_BackgroundColor (print_color (r, g, b, a)) = Some (SColor (r, g, b, a)).
+Proof. exact background_roundtrip_partial. Qed.
+(* lengths: Python's format(x, "g") then parse_length gives x rounded to six significant digits in the same unit, for every rational
+   x and every unit, unless the writer switches to exponent notation (trigger uses_exponent: finding g-exponent) *)
+Theorem C05_length_roundtrip_partial : forall x u, 0 <= u <= 5 -> uses_exponent x = false ->
+  exists v, parse_len (print_len (mkLen x u)) = Some (mkLen v u) /\ (v == round6 x)%Q.
+Proof. exact len_roundtrip. Qed.
+Theorem C05_attr_roundtrip_length_partial : forall p l, p = P_FontSize \/ p = P_Disparity -> valid_len l ->
+  print_style p (SLen l) = WAttr (print_len l) /\ exists l', read_style p (print_len l) = Some (SLen l') /\ len_equiv l l'.
+Proof. exact length_property_roundtrip. Qed.
+Theorem C05_attr_roundtrip_line_height_partial : forall l, valid_len l ->
+  read_style P_LineHeight T_normal = Some SNormal /\ print_style P_LineHeight SNormal = WAttr T_normal /\
+  exists l', read_style P_LineHeight (print_len l) = Some (SLen l') /\ len_equiv l l'.
+Proof. exact line_height_roundtrip. Qed.
+Theorem C05_attr_roundtrip_line_padding_partial : forall l, valid_len l -> l_unit l = U_c ->
+  exists l', read_style P_LinePadding (print_len l) = Some (SLen l') /\ len_equiv l l'.
+Proof. exact line_padding_roundtrip_partial. Qed.
+Theorem C05_attr_roundtrip_extent_partial : forall w h, valid_len w -> valid_len h -> validate_style P_Extent (SExtent w h) = true ->
+  exists s, print_style P_Extent (SExtent w h) = WAttr s /\
+  exists w' h', read_style P_Extent s = Some (SExtent w' h') /\ len_equiv w w' /\ len_equiv h h'.
+Proof. exact extent_roundtrip. Qed.
+Theorem C05_attr_roundtrip_origin_partial : forall x y, valid_len x -> valid_len y -> validate_style P_Origin (SOrigin x y) = true ->
+  exists s, print_style P_Origin (SOrigin x y) = WAttr s /\
+  exists x' y', read_style P_Origin s = Some (SOrigin x' y') /\ len_equiv x x' /\ len_equiv y y'.
+Proof. exact origin_roundtrip. Qed.
+Theorem C05_attr_roundtrip_padding_partial : forall b e a s, valid_len b -> valid_len e -> valid_len a -> valid_len s ->
+  exists t, print_style P_Padding (SPadding b e a s) = WAttr t /\
+  exists b' e' a' s', read_style P_Padding t = Some (SPadding b' e' a' s') /\
+    len_equiv b b' /\ len_equiv e e' /\ len_equiv a a' /\ len_equiv s s'.
+Proof. exact padding_roundtrip. Qed.
+
+(* the writer's value printers raise AttributeError only on tts:textEmphasis none (finding none-special-value; refuted witness in
+   Findings/C05.v) and on `normal` outside tts:lineHeight, which is not a valid model value *)
+Theorem C05_total_partial : forall p v, print_style p v = WErr 3 ->
+  (v = SNone /\ p = P_TextEmphasis) \/ (v = SNormal /\ p <> P_LineHeight).
+Proof. exact print_attribute_error. Qed.
+(* not proved (compared on generated documents only): the round trips of tts:position, tts:textOutline, tts:textShadow, tts:rubyReserve,
+   tts:textDecoration, tts:textEmphasis, tts:fontFamily, tts:opacity, tts:shear, tts:luminanceGain; clock_time_with_frames; the tree
+   round trip  read (write d cfg) ~ d. *)
+
+(* non-vacuity *)
+Example C05_example_g : format_g (1 # 3) = [48; 46; 51; 51; 51; 51; 51; 51] /\ format_g (2500000 # 1) = [50; 46; 53; 101; 43; 48; 54] /\ uses_exponent (1 # 3) = false.
+Proof. repeat split; reflexivity. Qed.
+Example C05_example_valid_len : valid_len (mkLen (12345678 # 1000) U_px).
+Proof. split; [unfold U_px; cbn; lia|reflexivity]. Qed.
+
+Print Assumptions C05_time_clock.  Print Assumptions C05_time_frames.  Print Assumptions C05_time_frames_error.
+Print Assumptions C05_time_frames_exact.  Print Assumptions C05_time_frames_monotone.
+Print Assumptions C05_attr_roundtrip_enum.  Print Assumptions C05_attr_roundtrip_bool.  Print Assumptions C05_attr_roundtrip_color.
+Print Assumptions C05_attr_roundtrip_background_partial.  Print Assumptions C05_length_roundtrip_partial.
+Print Assumptions C05_attr_roundtrip_length_partial.  Print Assumptions C05_attr_roundtrip_line_height_partial.
+Print Assumptions C05_attr_roundtrip_line_padding_partial.  Print Assumptions C05_attr_roundtrip_extent_partial.
+Print Assumptions C05_attr_roundtrip_origin_partial.  Print Assumptions C05_attr_roundtrip_padding_partial.
+Print Assumptions C05_total_partial.
